@@ -4,9 +4,10 @@ CONSTANTS
   MaxProd = 3  MaxTables = 1  MaxDepth = 3
   OpenKinds = {"Device"}  DeclKindsOn = {"Event"}
   Forms = {"caret"}
+  FieldKinds = {"Field", "IndexField", "BankField"}
   ScopeOn = TRUE  FieldOn = FALSE  MethodFlags = {}  StmtKinds = {}  MaxStmts = 0
   Widths = {}
-  Excluded = {"D1b", "D2", "D2c", "D3", "D5", "D7", "D8", "D9"}
+  Excluded = {"D1b", "D2", "D2c", "D3", "D5", "D7", "D8", "D9", "D10", "D11"}
   Emit = FALSE  Bug = ""
 INIT Init
 NEXT Next
